@@ -324,11 +324,16 @@ func CheckC09(p *Pkg, e *Env, r *res.Result) {
 				} else if b.IsValid() && strings.Contains(msg, "body does not validate") {
 					// does the body validate once nil slices / maps inside it are replaced by empty
 					// ones? then the only cause is a nil collection written as null (C07-F4)
-					if nb, nerr := safeMarshal(NormalizeNil(b).Interface()); nerr == nil {
-						if nt, derr := refmodel.DecodeJSON(nb); derr == nil {
-							if rb := p.Doc.ResolveRequestBody(op.Spec.RequestBody); rb != nil && rb.Content["application/json"] != nil && len(va.Validate(rb.Content["application/json"].Schema, nt)) == 0 {
-								kind = "invalid-wire:nil-collection-encoded-as-null"
+					if rb := p.Doc.ResolveRequestBody(op.Spec.RequestBody); rb != nil && rb.Content["application/json"] != nil {
+						if k := NilCollectionKind(b, func(nv reflect.Value) bool {
+							nb, nerr := safeMarshal(nv.Interface())
+							if nerr != nil {
+								return false
 							}
+							nt, derr := refmodel.DecodeJSON(nb)
+							return derr == nil && len(va.Validate(rb.Content["application/json"].Schema, nt)) == 0
+						}); k != "" {
+							kind = "invalid-wire:" + k
 						}
 					}
 				}
